@@ -156,7 +156,7 @@ def run(F, rep, tier):
     c09.unary_dispatch_rule(F, rep)
     c09.list_polarity_rule(F, rep)
     from props import c03_fold
-    c03_fold.run(F, rep)
+    c03_fold.run(F, rep, tier)
     # ---------------- R03.1
     bld = F.hir.get(DT + "build_decision_table_evaluator")
     if bld is None:
